@@ -224,7 +224,15 @@ impl<'a> AnyCache<'a> {
     pub(crate) fn reload_untyped(self, id: SharedString, typ: Type) -> Option<Dependencies> {
         let handle = self.get_cached_untyped(&id, typ)?;
 
-        let load_asset = || (typ.inner.load)(self, id);
+        let load_asset = || {
+            // A panic must not kill the hot-reloading thread: callers of
+            // `hot_reload` are waiting for its answer. Treat it as a failure.
+            let load = std::panic::AssertUnwindSafe(|| (typ.inner.load)(self, id.clone()));
+            match std::panic::catch_unwind(load) {
+                Ok(res) => res,
+                Err(_) => Err(Error::new(id, "panic while reloading the asset".into())),
+            }
+        };
         let (entry, deps) = if let Some(reloader) = self.reloader() {
             records::record(reloader, load_asset)
         } else {
